@@ -96,6 +96,24 @@ def purity(func_short: str, cls_short: str):
                 return f"{label}: hash changes between calls"
         except TypeError:
             pass
+    # the same object built twice, rendered under the contexts in opposite orders, with the attribute names before/after
+    first = dict(_objs_of(cls_short))
+    second = dict(_objs_of(cls_short))
+    for label in first:
+        if label not in second or not hasattr(first[label], "get_sql"):
+            continue
+        try:
+            before = set(vars(second[label]))
+        except TypeError:
+            before = None
+        fwd = render_all(first[label])
+        back = render_all(second[label], reverse=True)
+        for k, v in back.items():
+            if k in fwd and fwd[k] != v and " at 0x" not in repr(v):
+                return (f"{label}: rendering {k} depends on what was rendered before: {fwd[k]!r} when rendered in "
+                        f"context order, {v!r} in the opposite order")
+        if before is not None and set(vars(second[label])) != before:
+            return f"{label}: rendering adds attributes {sorted(set(vars(second[label])) - before)} to the object"
     return None
 
 
